@@ -91,6 +91,12 @@ SCENARIOS = {
         input I { e: E2 } input J { n: Int } input Never { u: EU }
         type Query { q(items: [I!]!, modes: [E!], grid: [[J!]]): Int }
         """, "query Q($items: [I!]!, $modes: [E!], $grid: [[J!]]) { q(items: $items, modes: $modes, grid: $grid) }", {}),
+    "enums-only-in-list-typed-result-fields": ("""
+        enum Label { L1 L2 } enum Stage { S1 } enum Role2 { R } enum Unused5 { U }
+        type Thing { labels: [Label!]! grid: [[Stage]] name: String owners: [Person!] }
+        type Person { roles: [Role2!] }
+        type Query { thing: Thing }
+        """, "fragment P on Person { roles } query GetThing { thing { labels grid owners { ...P } } }", {}),
     "custom-operations-enabled-next-to-operations": ("""
         enum Used { A } enum OnlyInSchema { B } enum ArgEnum { C }
         input In { n: Int }
